@@ -392,6 +392,9 @@ func (its *jsonPrimitive) createJSONTypeFromReflectValue(parent jsonType, rv ref
 		if kind == reflect.Slice && rv.IsNil() { // a nil slice is encoded as JSON null, too
 			return nil
 		}
+		if kind == reflect.Slice && rv.Type().Elem().Kind() == reflect.Uint8 { // a byte slice is encoded as a base64 string, not as an array
+			return newJSONElement(parent, types.ConvertToJSONSupportedValue(rv.Bytes()), ts.GetAndNextDelimiter())
+		}
 		return its.createJSONArray(parent, rv.Interface(), ts)
 	case reflect.Ptr, reflect.Interface:
 		if rv.IsNil() {
